@@ -88,6 +88,9 @@ func VerifReq_Lifecycle() {
 	local := []bool{verifrt.Bool("root-local"), false, false}
 	e := NewEnv(dag, local, 1, 0)
 	e.FailSends = verifrt.Param("FAILSENDS", 0) == 1 && verifrt.Choose("sends-fail", 2) == 1
+	if verifrt.Param("DELAYRELEASE", 1) == 1 {
+		e.DelayRelease = verifrt.Choose("executor-slow-to-release-task", 2) == 1
+	}
 	pA := peer.ID("peerA")
 	rq := e.Start(pA, 0)
 	kit.Drain() // the executor runs until its first local miss and sends the request
